@@ -565,7 +565,7 @@ func c09Steered(c *lab.Ctx, e *engine, proto string, rng *lab.Rand, doOp func(cl
 			select {
 			case <-closedCh(id):
 				atomic.AddInt64(&ppHeld, 1)
-				time.Sleep(2 * time.Millisecond) // let the close handler finish its bookkeeping
+				time.Sleep(40 * time.Millisecond) // let the close handler finish its bookkeeping (the hook fires at its start)
 			case <-time.After(300 * time.Millisecond):
 			}
 		})
